@@ -619,8 +619,8 @@ func whoRemoves(ctx *core.Ctx, rule string) {
 type digestCmp struct {
 	instr   ssa.Instruction
 	val     ssa.Value
-	negated bool        // the instruction is a != comparison
-	a, b    ssa.Value   // operands (for bytes.Equal: the two slices; for arrays: the two array values)
+	negated bool      // the instruction is a != comparison
+	a, b    ssa.Value // operands (for bytes.Equal: the two slices; for arrays: the two array values)
 	isArray bool
 }
 
